@@ -15,16 +15,31 @@ set_option linter.unusedVariables false
 
 def NF (c : Core) (i : Nat) : Prop := i < c.n ∧ (c.objs i).freed = false
 
-def NFle (c c' : Core) : Prop := ∀ i, NF c i → NF c' i
+/-- what never changes inside one task: valid pointers stay valid (`nf`), no object is un-allocated (`le`), an allocated
+    object keeps its name (`name`) and a destructed object stays destructed (`dead`) -/
+structure NFle (c c' : Core) : Prop where
+  nf : ∀ i, NF c i → NF c' i
+  le : c.n ≤ c'.n
+  name : ∀ i, i < c.n → (c'.objs i).name = (c.objs i).name
+  dead : ∀ i, i < c.n → (c.objs i).destructed = true → (c'.objs i).destructed = true
 
-theorem NFle.refl (c : Core) : NFle c c := fun _ h => h
-theorem NFle.trans {a b c : Core} (h1 : NFle a b) (h2 : NFle b c) : NFle a c := fun i h => h2 i (h1 i h)
+instance {c c' : Core} : CoeFun (NFle c c') (fun _ => ∀ i, NF c i → NF c' i) := ⟨fun h => h.nf⟩
 
-theorem nfle_of {c c' : Core} (hn : c.n ≤ c'.n) (hf : ∀ i, i < c.n → (c'.objs i).freed = (c.objs i).freed) :
-    NFle c c' := fun i h => ⟨Nat.lt_of_lt_of_le h.1 hn, by rw [hf i h.1]; exact h.2⟩
+theorem NFle.refl (c : Core) : NFle c c := ⟨fun _ h => h, Nat.le_refl _, fun _ _ => rfl, fun _ _ h => h⟩
+theorem NFle.trans {a b c : Core} (h1 : NFle a b) (h2 : NFle b c) : NFle a c :=
+  ⟨fun i h => h2.nf i (h1.nf i h), Nat.le_trans h1.le h2.le,
+   fun i hi => by rw [h2.name i (Nat.lt_of_lt_of_le hi h1.le), h1.name i hi],
+   fun i hi hd => h2.dead i (Nat.lt_of_lt_of_le hi h1.le) (h1.dead i hi hd)⟩
 
-theorem nfle_same {c c' : Core} (hn : c'.n = c.n) (hf : freedF c' = freedF c) : NFle c c' :=
-  nfle_of (by omega) (fun i _ => congrFun hf i)
+theorem nfle_of {c c' : Core} (hn : c.n ≤ c'.n) (hf : ∀ i, i < c.n → (c'.objs i).freed = (c.objs i).freed)
+    (hnm : ∀ i, i < c.n → (c'.objs i).name = (c.objs i).name)
+    (hdd : ∀ i, i < c.n → (c.objs i).destructed = true → (c'.objs i).destructed = true) :
+    NFle c c' := ⟨fun i h => ⟨Nat.lt_of_lt_of_le h.1 hn, by rw [hf i h.1]; exact h.2⟩, hn, hnm, hdd⟩
+
+theorem nfle_same {c c' : Core} (hn : c'.n = c.n) (hf : freedF c' = freedF c) (hnm : nameF c' = nameF c)
+    (hdd : deadF c' = deadF c) : NFle c c' :=
+  nfle_of (by omega) (fun i _ => congrFun hf i) (fun i _ => congrFun hnm i)
+    (fun i _ h => by have := congrFun hdd i; simp only [deadF] at this; rw [this]; exact h)
 
 /-- a live object is a valid pointer -/
 theorem live_nf {c : Core} (hI : Inv c) {i : Nat} (hi : i < c.n) (hd : (c.objs i).destructed = false) : NF c i := by
@@ -35,48 +50,75 @@ theorem live_nf {c : Core} (hI : Inv c) {i : Nat} (hi : i < c.n) (hd : (c.objs i
 
 theorem nfle_lookupC (c : Core) (nm : Name) : NFle c (lookupC c nm).1 := by
   have := lookupC_n c nm
-  exact nfle_of (by omega) (fun i _ => by rw [this.2])
+  exact nfle_of (by omega) (fun i _ => by rw [this.2]) (fun i _ => by rw [this.2]) (fun i _ h => by rw [this.2]; exact h)
 
 theorem findLivingC_n (c : Core) (s : String) : (findLivingC c s).1.n = c.n ∧ (findLivingC c s).1.objs = c.objs := by
   rw [findLivingC_eq]; split <;> simp [setLv]
 
 theorem nfle_findLivingC (c : Core) (s : String) : NFle c (findLivingC c s).1 := by
   have := findLivingC_n c s
-  exact nfle_of (by omega) (fun i _ => by rw [this.2])
+  exact nfle_of (by omega) (fun i _ => by rw [this.2]) (fun i _ => by rw [this.2]) (fun i _ h => by rw [this.2]; exact h)
 
 theorem nfle_setEc (c : Core) (a : Nat) (b : Bool) : NFle c (setObj c a { c.objs a with ec := b }) :=
   nfle_of (by simp [setObj]) (fun i _ => by simp only [setObj]; by_cases h : i = a <;> simp [h])
+    (fun i _ => by simp only [setObj]; by_cases h : i = a <;> simp [h])
+    (fun i _ hd => by simp only [setObj]; by_cases h : i = a <;> simp_all)
 
 theorem nfle_setLiving {c : Core} {a : Nat} (s : String) (hd : (c.objs a).destructed = false) : NFle c (setLiving c a s) := by
   rw [setLiving_eq hd]
   exact nfle_of (by simp [livingSet]) (fun i _ => by simp only [livingSet]; by_cases h : i = a <;> simp [h])
+    (fun i _ => by simp only [livingSet]; by_cases h : i = a <;> simp [h])
+    (fun i _ hd => by simp only [livingSet]; by_cases h : i = a <;> simp_all)
 
 theorem nfle_sentOnly {c c' : Core} (h : SentOnly c c') : NFle c c' := by
   have := sentOnly_proj h
-  exact nfle_same this.1 this.2.2.2.2.2.2.2.2.2.2.1
+  exact nfle_same this.1 this.2.2.2.2.2.2.2.2.2.2.1 this.2.2.2.2.2.2.2.2.2.1 this.2.2.2.2.2.2.1
 
 theorem nfle_relink (c : Core) (item dest : Nat) : NFle c (relink c item dest) :=
-  nfle_same (relink_fields c item dest).1 (relink_same c item dest).2.2.1
+  nfle_same (relink_fields c item dest).1 (relink_same c item dest).2.2.1 (relink_same c item dest).2.1
+    (relink_same c item dest).1
 
 theorem nfle_alloc {c : Core} {nm : Name} {cl : Bool} (hI : Inv c)
     (hfree : ∀ i, i < c.n → (c.objs i).destructed = false → (c.objs i).name ≠ nm) :
     NFle c (alloc c nm cl).1 ∧ NF (alloc c nm cl).1 (alloc c nm cl).2 := by
   rw [alloc_eq hI hfree]
   constructor
-  · refine nfle_of (by simp [allocCore]) (fun i hi => ?_)
-    have : i ≠ c.n := by omega
-    simp [allocCore, this]
+  · refine nfle_of (by simp [allocCore]) (fun i hi => ?_) (fun i hi => ?_) (fun i hi hd => ?_)
+    · have : i ≠ c.n := by omega
+      simp [allocCore, this]
+    · have : i ≠ c.n := by omega
+      simp [allocCore, this]
+    · have : i ≠ c.n := by omega
+      simp [allocCore, this, hd]
   · simp [NF, allocCore]
 
-theorem nfle_ctr (c : Core) : NFle c { c with ctr := c.ctr + 1 } := fun _ h => h
+theorem nfle_ctr (c : Core) : NFle c { c with ctr := c.ctr + 1 } :=
+  ⟨fun _ h => h, Nat.le_refl _, fun _ _ => rfl, fun _ _ h => h⟩
 
 theorem nfle_finishDestruct {c : Core} {ob : Nat} (hI : Inv c) (ho : ob < c.n) (hd : (c.objs ob).destructed = false) :
     NFle c (finishDestruct c ob) := by
   rw [finishDestruct_eq hI.names ho hd]
   obtain ⟨p1, p2, p3, p4, p5, p6, p7⟩ := destroyed_proj (unlinkC c ob) ob (hashN (c.objs ob).name) (c.objs ob).living
-  refine nfle_same ?_ ?_
-  · exact (unlinkC_fields c ob).1
-  · rw [p5]; exact (unlinkC_same c ob).2.2.1
+  refine nfle_of ?_ ?_ ?_ ?_
+  · exact Nat.le_of_eq (unlinkC_fields c ob).1.symm
+  · intro i _
+    have h1 := congrFun p5 i
+    have h2 := congrFun (unlinkC_same c ob).2.2.1 i
+    simp only [freedF] at h1 h2
+    rw [h1, h2]
+  · intro i _
+    have h1 := congrFun p4 i
+    have h2 := congrFun (unlinkC_same c ob).2.1 i
+    simp only [nameF] at h1 h2
+    rw [h1, h2]
+  · intro i _ hd0
+    have h1 := congrFun p1 i
+    have h2 := congrFun (unlinkC_same c ob).1 i
+    simp only [deadF] at h1 h2
+    rw [h1]
+    by_cases hi : i = ob
+    · simp [hi]
+    · simp only [hi, if_false]; rw [h2]; exact hd0
 
 /-! ## well-formedness -/
 
